@@ -105,6 +105,26 @@ def step (s : St) (op : String) (got : String) : StepResult St :=
             spec := if okKeys then [] else [⟨"A-hash", "keys", s!"router keys not distinct / zero / wrong count: {got}"⟩] }
         | none => { st := {}, expected := some "ok <keys>" }
       | _ => { st := {}, expected := some "ok <keys>" }
+  | ["sweep", a, wsT] =>
+    -- ONE checkDeadNeighbors call of router a finds all the listed neighbours dead: the code performs
+    -- RemoveNextHop + Prune for each of them inside the same call (model: the `dead` events in sequence)
+    match a.toNat?, (wsT.splitOn ",").mapM String.toNat? with
+    | some a, some ws =>
+      let n := s.net.length
+      let specFails := if got == "skip" then [] else advFiniteFails s!"r{a}" got
+      let sp' := if got == "skip" then sp else disturb { sp with nbr := sp.nbr.filter fun p => !(p.1 == a && ws.contains p.2) }
+      if a < n && ws.all (fun w => w < n && w != a) then
+        let (net', k) := ws.foldl (fun (acc : Net × Nat) w =>
+          match acc.1.dead a w with
+          | some (net2, _) => (net2, acc.2 + 1)
+          | none => acc) (s.net, 0)
+        if k == 0 then { st := { s with sp := sp' }, expected := some "skip", spec := specFails, cov := ["dead-skip"] }
+        else
+          let ru := (net'.get? a).getD (Router.start 0)
+          { st := { s with net := net', sp := sp' }, expected := some (dumpRouter s.keys ru), spec := specFails,
+            cov := [if k ≥ 2 then "sweep-multi" else "sweep-single"] }
+      else { st := { s with sp := sp' }, expected := some "skip", spec := specFails }
+    | _, _ => { st := s, expected := some "bad-op" }
   | [lk, a, b] =>
     match a.toNat?, b.toNat? with
     | some a, some b =>
